@@ -34,7 +34,8 @@ def omissions(ins, scope):
 # he.21 / rn.9 / ra.9 / re.21 probe resources that are ABSENT from the pre-tick store: observing absence is a read too
 ACCESS_INS = ["rn.3", "rn.s", "ra.2", "ca.s", "ca.4", "he.20", "re.20", "he.21", "rn.9", "ra.9", "re.21", "sa.s.aa", "sa.3.-", "un.9.6", "un.2.7", "dn.5",
               "ue.21.s.3.8", "ue.20.4.3.8", "de.2.20", "se.20.bb", "se.20.-"]
-VIOLATING_INS = ["xw.2.5", "io.4", "pn"]
+# op.4.2: OpenPortal{RequireExisting} on a slot the rule DOES declare in a_write: still an instance-level op
+VIOLATING_INS = ["xw.2.5", "io.4", "pn", "op.4.2", "op.2.2"]
 GRAPH = "I1.1;N1.2.5;N1.3.5;N1.4.5;N1.5.6;N1.6.6;N1.258.6;E1.20.2.3.8;B1.20.aa;A1.2.0102;A1.4.01"
 
 
@@ -91,6 +92,7 @@ def event(e):
     if k == "UE": return f"Emit (UpsertEdge {f[1]} {f[2]} {f[3]} {f[4]} {f[5]})"
     if k == "DE": return f"Emit (DeleteEdge {f[1]} {f[2]} {f[3]})"
     if k == "SA": return f"Emit (SetAtt {akey(f[1] + '.' + f[2])} {'None' if f[3] == '-' else '(Some (Atom 1 []))'})"
+    if k == "OP": return f"Emit (OpenPortal {akey(f[1] + '.' + f[2])} {f[3]} 1 None)"     # init None = RequireExisting
     if k == "UW": return f"Emit (UpsertWI {f[1]} 1 None)"
     if k == "DW": return f"Emit (DeleteWI {f[1]})"
     if k == "PANIC": return "ExecPanic"
